@@ -237,3 +237,13 @@ def r3(ctx):
     g = cfg(rm)
     rets = return_blocks(rm)
     ctx.check(bool(rms) and all(g.all_paths_pass(0, [c.bb], exits=rets) for c, _, _ in rms), 'R3', 'maps:removed-on-all-paths', rm, 'the per-block maps are dropped on every return path', 'a return path of remove keeps a per-block map')
+
+
+# plumbing between the interface and the analysed functions (rules/plumbing.py)
+_run_before_plumbing = run
+
+
+def run(ctx):
+    _run_before_plumbing(ctx)
+    from rules import plumbing
+    plumbing.blocks_enumeration(ctx, 'R2')
